@@ -16,7 +16,9 @@ RULE = ('Complete enumeration of every cell name of GSC180, NANGATE, NANGATE_ZN,
         'circuit; (b) for every combinational family named in the statement (AND/OR/NAND/NOR/XOR/XNOR n, buffers, inverters, AO/OA/AOI/OAI '
         'groupings, MUX2/MUX4, half/full adders; plus constants and isolation cells) all 2^n input combinations are simulated through the '
         'implementation circuit and compared per output pin with a hand-written datasheet table. non-trivial: cell has a datasheet function '
-        'with >= 2 inputs; distinct = distinct (library, cell).')
+        'with >= 2 inputs; distinct = distinct (library, cell). Part lookup: all 20 ordered pairs of libraries swept through pin_index / pin_is_output in '
+        'one process (first, second, first again) against the declaration order of the own expansion; non-trivial: the two libraries share '
+        'a cell name with other pins or another pin order.')
 ASSUMPTIONS = ['datasheet functions in vk/datasheet.py are written from the vendor naming conventions (Nangate A/B1/B2, SAED A1../IN1.., GSC A0/B0)',
                'implementation circuits are evaluated with kyupy LogicSim(m=2) (decided separately by C01)']
 
@@ -123,8 +125,36 @@ def prop(case):
     return Obs(n >= 2, labels, checks=len(outs) * sims)
 
 
-def known_f09(case):
-    return False
+def enum_lookup(tier):
+    for a in LIBS:
+        for b in LIBS:
+            if a != b:
+                yield dict(first=a, then=b)
 
 
-PARTS = [Part('cells', prop, enumerate=enum_cells, quick=(8, 0), thorough=(16, 0))]
+def prop_lookup(case):
+    """the look-up methods the netlist parsers use answer per library, whatever was asked of another library before (135 cell names exist in
+    two libraries, some with other pins or another pin order)"""
+    import kyupy.techlib as tl
+    shared_diff = 0
+    n = 0
+    for lib in (case['first'], case['then'], case['first']):
+        tlib = getattr(tl, lib)
+        for name, (ins, outs, _) in sorted(expected_cells(lib).items()):
+            if name not in tlib.cells:
+                continue            # reported by part cells
+            for is_out, pins in ((False, ins), (True, outs)):
+                for idx, p in enumerate(pins):
+                    n += 1
+                    gi, go = tlib.pin_index(name, p), bool(tlib.pin_is_output(name, p))
+                    if gi != idx or go != is_out:
+                        raise Violation(f'{lib}.pin_index/pin_is_output({name!r}, {p!r}) = ({gi}, {go}) after look-ups in {case["first"]}, '
+                                        f'{case["then"]}; declaration says ({idx}, {is_out})')
+    a, b = expected_cells(case['first']), expected_cells(case['then'])
+    shared = set(a) & set(b)
+    shared_diff = sum(1 for x in shared if a[x][:2] != b[x][:2])
+    return Obs(shared_diff > 0, [f'shared_names_{"some" if shared else "none"}', f'shared_with_other_pins_{"some" if shared_diff else "none"}'], checks=n)
+
+
+PARTS = [Part('cells', prop, enumerate=enum_cells, quick=(8, 0), thorough=(16, 0)),
+         Part('lookup', prop_lookup, enumerate=enum_lookup, quick=(4, 0), thorough=(4, 0))]
